@@ -35,6 +35,8 @@ CONSTANTS Setting,      \* set of setting names
           DefOn,        \* [Setting -> "T"|"F"]  _default of flag-like settings (ignored otherwise)
           HalfNone,     \* [Setting -> BOOLEAN]  dtype settings whose half default is None
           ExitSkipsNone,\* [kind -> BOOLEAN]     does __exit__ go through the None-skipping setter?
+          WarnsOnEnter, \* set of settings whose __enter__ may raise (a warning escalated to an error)
+          WarnBeforeSet,\* BOOLEAN code shape: the warning is issued BEFORE the global is written (current code: TRUE)
           MaxDepth,     \* nesting bound
           MaxLen,       \* program length bound (only used when history is recorded)
           RecordHist    \* BOOLEAN: carry the history variable (generation configs)
@@ -136,6 +138,15 @@ Enter ==
        /\ Rec([a |-> "Enter", s |-> p.s, args |-> p.req, k |-> 0, obs |-> VisibleP(ideal')])
   /\ pend'  = <<>>
 
+\* __enter__ raises: the `with` statement never calls __exit__, so the block must not have left any effect
+EnterFails ==
+  /\ pend # <<>> /\ pend[1].s \in WarnsOnEnter
+  /\ LET p == pend[1] IN
+       /\ glob' = IF WarnBeforeSet THEN glob ELSE [glob EXCEPT ![p.s] = SetEnter(Kind[p.s], @, p.inst)]
+       /\ Rec([a |-> "EnterFails", s |-> p.s, args |-> p.req, k |-> 0, obs |-> VisibleP(ideal)])
+  /\ UNCHANGED <<stack, ideal>>
+  /\ pend' = <<>>
+
 \* k frames are unwound, innermost first, each by its own __exit__
 RECURSIVE Unwind(_, _, _)
 Unwind(g, st, k) ==
@@ -158,6 +169,7 @@ ExitByException == \E k \in 1..Len(stack) : Pop(k, "Raise")
 Next ==
   \/ \E s \in Setting : \E args \in ArgsOf(Kind[s]) : Construct(s, args)
   \/ Enter
+  \/ EnterFails
   \/ ExitNormal
   \/ ExitByException
 
